@@ -8,7 +8,7 @@ PROP = {
              # the list model cannot hold 2^32 cells)
              {"tag": "c02huge", "bin": "c02", "args": ["--huge"], "model": False}],
     "mismatch_is_failing": True,
-    "rule": "N in {0..12,16,33,64,255,1024} x element types u32, drop-tracked Tr, zero-sized Tz and (): (0) pointer offset, length and contents of all 12 views (as_slice, as_mut_slice, Deref, DerefMut, Borrow, BorrowMut, AsRef/AsMut to [T] and [T;N], & and &mut iteration) with the array at each of three positions of an enclosing buffer; (1) write-through matrix: write through each of the 6 mutable views at index 0, N/2, N-1, read through each of the 12 views plus a dump of the neighbouring arrays (full matrix for N<=16, quick tier samples index/pairs above; thorough: full everywhere), plus an index one past the end; (2) from_slice, try_from_slice, from_mut_slice, try_from_mut_slice, TryFrom<&[T]>, TryFrom<&mut [T]> for every source length L in 0..=N+3 (quick: boundary L only for N in {255,1024}) with outcome, aliasing offset, contents and write-back into the source buffer, plus From<&[T;N]>/From<&mut [T;N]>; (3) from_array/into_array/From/Into [T;N] and tuples of length 1..=12 both directions with element positions and drop/clone event count. distinct = distinct CASE lines; non-trivial = N > 0",
+    "rule": "N in {0..12,16,33,64,255,1024} x element types u32, drop-tracked Tr, zero-sized Tz, () and Tri (12 bytes, alignment 4: arrays that do not start at a multiple of the element size; views, write-through for N <= 16, by-value): (0) pointer offset, length and contents of all 12 views (as_slice, as_mut_slice, Deref, DerefMut, Borrow, BorrowMut, AsRef/AsMut to [T] and [T;N], & and &mut iteration) with the array at each of three positions of an enclosing buffer; (1) write-through matrix: write through each of the 6 mutable views at index 0, N/2, N-1, read through each of the 12 views plus a dump of the neighbouring arrays (full matrix for N<=16, quick tier samples index/pairs above; thorough: full everywhere), plus an index one past the end; (2) from_slice, try_from_slice, from_mut_slice, try_from_mut_slice, TryFrom<&[T]>, TryFrom<&mut [T]> for every source length L in 0..=N+3 (quick: boundary L only for N in {255,1024}) with outcome, aliasing offset, contents and write-back into the source buffer, plus From<&[T;N]>/From<&mut [T;N]>; (3) from_array/into_array/From/Into [T;N] and tuples of length 1..=12 both directions with element positions and drop/clone event count. distinct = distinct CASE lines; non-trivial = N > 0",
     "nontrivial": lambda case, obs: len(case.split()) > 3 and case.split()[3] != "0",
     "manifest": {
         "design_ref": "DESIGN.md section 7, C02",
